@@ -282,7 +282,9 @@ vars == <<vec, flips, inv, tc>>
 InitVec == [sid |-> "init", kind |-> "context", def |-> "builtin-table", use |-> "variable", name |-> "github",
             alt |-> "githubz", flavour |-> "ok", p1 |-> "lower", p2 |-> "lower", pa |-> "lower"]
 
-PatsFor(s, role) == IF role \in s.roles THEN Pats ELSE {"lower"}
+\* "doc" = the spelling of GitHub's documentation (startsWith, toJSON, ...; all lower case for most names): the
+\* all-lower-case base is not privileged, every spelling must agree with it.  Not a spelling of its own for controls.
+PatsFor(s, role) == IF role \in s.roles THEN (IF Sensitive(s.kind) THEN Pats \ {"doc"} ELSE Pats) ELSE {"lower"}
 ScenNext ==
   /\ vec.sid = "init"
   /\ \E s \in Catalogue : \E nm \in NamesOf(s) : \E f \in s.flavs :
